@@ -632,6 +632,7 @@ Definition ibounds (k : ikind) : ext * ext :=
 Definition leaf_conf (st : stype) (v : sval) : bool :=
   let f := st_fa st in
   kind_ok (st_base st) v
+  && match st_base st, v with BStr true, SText t => text_eqb (xs_trim t) t | _, _ => true end
   && range_ok f v && values_ok f v
   && match st_base st, v with
      | BInt k, SInt z =>
